@@ -117,7 +117,7 @@ def check_rows(ctx, case, xs, d, present_keys, m):
         ctx.mismatch("Sections.ixSecAll", case, m["ixSecAll"], ix)
     ref = ds.dts.ufunc_per_section(sections=sec, label="st", ref_temp_broadcasted=True, calc_per="all")
     keys = [k for k, _ in d]
-    model_ref = np.array([ds[keys[b]].values for b in m["bathOfRow"]]).reshape(len(m["bathOfRow"]), -1)
+    model_ref = np.array([ds[keys[b]].values for b in m["bathOfRow"]]).reshape(len(m["bathOfRow"]), ds.time.size)
     if np.asarray(ref).shape != model_ref.shape or not np.array_equal(np.asarray(ref), model_ref):
         ctx.mismatch("Sections.bathOfRow", case, m["bathOfRow"], np.asarray(ref).tolist())
     # oracle: every selected location exactly once, ascending; its row is its own bath's series
